@@ -288,6 +288,8 @@ func c05Units(tier string) []*Unit {
 		depth := 3
 		if tier == "thorough" {
 			depth = 5
+		} else if sh.genOnce {
+			depth = 4 // run, change, run (output kept), run: the shortest history that tells whether the second run was recorded
 		}
 		name := fmt.Sprintf("hist/%s/%s/depth%d", sh.method, sh.name, depth)
 		us = append(us, &Unit{Name: name, Weight: 5, Custom: func(u *Unit, dir string, deadline time.Time) *vlab.UnitResult {
